@@ -123,11 +123,11 @@ type KeyValue struct {
 // Return a list of values from a list of KeyValues using an offset/limit bound and a match function.
 func DoListFunc(list []*KeyValue, match func(value []byte) bool, offset, limit int) []string {
 	l := len(list)
-	upper := offset + limit
-	if upper > l {
-		upper = l
+	// Note: offset+limit may overflow for a very large limit, compare against the remainder instead.
+	size := l - offset
+	if limit < size {
+		size = limit
 	}
-	size := upper - offset
 	if size <= 0 {
 		// No more results
 		return nil
